@@ -546,7 +546,11 @@ ZSTD_bounds ZSTD_cParam_getBounds(ZSTD_cParameter param)
     /* experimental parameters */
     case ZSTD_c_rsyncable:
         bounds.lowerBound = 0;
+#ifdef ZSTD_MULTITHREAD
         bounds.upperBound = 1;
+#else
+        bounds.upperBound = 0;
+#endif
         return bounds;
 
     case ZSTD_c_forceMaxWindow :
